@@ -18,7 +18,7 @@ import (
 var orderedPKs = map[int][][]int{
 	1: {{}, {0}},
 	2: {{}, {0}, {1}, {0, 1}, {1, 0}},
-	3: {{}, {0}, {1}, {2}, {0, 1}, {1, 0}, {0, 2}, {2, 0}, {1, 2}, {2, 1}, {0, 1, 2}, {2, 1, 0}, {1, 0, 2}},
+	3: {{}, {0}, {1}, {2}, {0, 1}, {1, 0}, {0, 2}, {2, 0}, {1, 2}, {2, 1}, {0, 1, 2}, {2, 1, 0}, {1, 0, 2}, {0, 2, 1}, {1, 2, 0}, {2, 0, 1}},
 }
 
 var colNames = []string{"a", "b", "c"}
